@@ -30,6 +30,8 @@ type Names struct {
 	Exotic bool
 	// Long (Opts.LongLines): method and variable names may be far longer than 40 characters
 	Long bool
+	// Special (Opts.KeywordNames): names may be contextual keywords and single letters (audit_c01.go)
+	Special bool
 }
 
 // exoticPieces are put behind, inside or in front of a name (Names.Exotic). The first ones are the plainest.
@@ -157,6 +159,11 @@ func (ns *Names) numbered(prefix string) string {
 func (ns *Names) Reserve(name string) { ns.used[name] = true }
 
 func (ns *Names) Class(t *rapid.T) string {
+	if ns.Special {
+		if w := ns.special(t, "class"); w != "" {
+			return w
+		}
+	}
 	first := rapid.SampledFrom([]string{"A", "B", "K", "Order", "Repo", "Item", "Z"}).Draw(t, "classFirst")
 	n := ns.fresh(t, first, "class")
 	n = strings.ToUpper(n[:1]) + n[1:]
@@ -171,6 +178,11 @@ func (ns *Names) Class(t *rapid.T) string {
 }
 
 func (ns *Names) Method(t *rapid.T) string {
+	if ns.Special {
+		if w := ns.special(t, "method"); w != "" {
+			return w
+		}
+	}
 	first := rapid.SampledFrom([]string{"m", "run", "calc", "load", "x", "apply"}).Draw(t, "methodFirst")
 	n := ns.fresh(t, first, "method")
 	if ns.Words && rapid.IntRange(0, 5).Draw(t, "methodWord") >= 4 {
@@ -184,6 +196,11 @@ func (ns *Names) Method(t *rapid.T) string {
 }
 
 func (ns *Names) Var(t *rapid.T) string {
+	if ns.Special {
+		if w := ns.special(t, "var"); w != "" {
+			return w
+		}
+	}
 	first := rapid.SampledFrom([]string{"v", "a", "repo", "it", "p", "tmp"}).Draw(t, "varFirst")
 	return ns.decorate(t, ns.fresh(t, first, "var"), "var", exoticPieces, true)
 }
